@@ -402,3 +402,136 @@ pub fn gen_layout(deep: bool) -> Vec<History> {
     }
     out
 }
+
+// ---------------------------------------------------------------------------------------------
+// shape closure: every coloured SHAPE of up to `nmax` nodes that the real tree reaches, with every
+// insertion (into every gap) and every removal (of every node) applied from it
+
+/// the coloured shape of a tree snapshot: pre-order term with colours only
+fn canon_shape(snap: &str, arity: usize) -> String {
+    let body = snap.split(" |").next().unwrap_or("");
+    let toks: Vec<&str> = body.split_whitespace().collect();
+    let mut out = String::new();
+    let mut i = 0;
+    while i < toks.len() {
+        match toks[i] {
+            "." => {
+                out.push('.');
+                i += 1;
+            }
+            c @ ("R" | "B") => {
+                out.push_str(c);
+                i += 2 + arity;
+            }
+            other => panic!("unexpected snapshot token {other} in {snap}"),
+        }
+    }
+    out
+}
+
+pub struct ShapeState {
+    pub prefix: Vec<Op>,
+    pub keys: Vec<i32>, // sorted
+}
+
+/// key strictly between the neighbours of gap `g` (0 = below the smallest) of a sorted key list
+fn gap_key(keys: &[i32], g: usize) -> Option<i32> {
+    let lo: i64 = if g == 0 { -(1 << 30) } else { keys[g - 1] as i64 };
+    let hi: i64 = if g == keys.len() { 1 << 30 } else { keys[g] as i64 };
+    if hi - lo < 2 {
+        None
+    } else {
+        Some(((lo + hi) / 2) as i32)
+    }
+}
+
+pub fn shape_states(coll: Coll, nmax: usize, limit: usize) -> Vec<ShapeState> {
+    let mut seen: HashMap<String, ()> = HashMap::new();
+    let mut queue: VecDeque<ShapeState> = VecDeque::new();
+    let mut out = Vec::new();
+    seen.insert(".".into(), ());
+    queue.push_back(ShapeState { prefix: vec![], keys: vec![] });
+    while let Some(st) = queue.pop_front() {
+        if out.len() + queue.len() < limit {
+            let mut succ: Vec<(Op, Vec<i32>)> = Vec::new();
+            if st.keys.len() < nmax {
+                for g in 0..=st.keys.len() {
+                    if let Some(k) = gap_key(&st.keys, g) {
+                        let mut ks = st.keys.clone();
+                        ks.insert(g, k);
+                        succ.push((Op::M(MOp::Ins(k, val_of(k % 1000))), ks));
+                    }
+                }
+            }
+            for (i, k) in st.keys.iter().enumerate() {
+                let mut ks = st.keys.clone();
+                ks.remove(i);
+                succ.push((Op::M(MOp::Del(*k)), ks));
+            }
+            for (op, ks) in succ {
+                let mut p = st.prefix.clone();
+                p.push(op);
+                let (snap, _) = exec::run_silent(&hist(coll, 8, p.clone()));
+                let sh = canon_shape(&snap, 2);
+                if !seen.contains_key(&sh) {
+                    seen.insert(sh, ());
+                    queue.push_back(ShapeState { prefix: p, keys: ks });
+                }
+            }
+        }
+        out.push(st);
+    }
+    out
+}
+
+/// from every reachable shape of up to nmax nodes: insertion into every gap and removal of every node
+/// (by key, and through the predecessor handle), each followed by a look-up of every key and, for the
+/// set, the neighbour steps of every entry.  `shard` / `shards` split the states.
+pub fn gen_shapex(coll: Coll, nmax: usize, shards: usize, shard: usize) -> Vec<History> {
+    let is_set = coll == Coll::SetTree;
+    let states = shape_states(coll, nmax, 60_000);
+    let mut out = Vec::new();
+    for (si, st) in states.iter().enumerate() {
+        if si % shards.max(1) != shard % shards.max(1) {
+            continue;
+        }
+        let probes = |ops: &mut Vec<Op>, keys: &[i32]| {
+            for k in keys {
+                ops.push(Op::M(MOp::Get(*k)));
+                if is_set {
+                    ops.push(Op::M(MOp::After(*k)));
+                    ops.push(Op::M(MOp::Before(*k)));
+                } else {
+                    ops.push(Op::M(MOp::First(*k)));
+                }
+            }
+            if is_set {
+                if let Some(lo) = keys.first() {
+                    ops.push(Op::M(MOp::WalkF(*lo)));
+                }
+            }
+        };
+        // all single steps from this shape share one history each (the state is rebuilt per history)
+        if st.keys.len() < nmax + 1 {
+            for g in 0..=st.keys.len() {
+                if let Some(k) = gap_key(&st.keys, g) {
+                    let mut ops = st.prefix.clone();
+                    ops.push(Op::M(MOp::Ins(k, 7)));
+                    let mut ks = st.keys.clone();
+                    ks.insert(g, k);
+                    probes(&mut ops, &ks);
+                    out.push(hist(coll, 8, ops));
+                }
+            }
+        }
+        for (i, k) in st.keys.iter().enumerate() {
+            let mut ks = st.keys.clone();
+            ks.remove(i);
+            let mut ops = st.prefix.clone();
+            ops.push(Op::M(if i % 2 == 0 { MOp::Del(*k) } else { MOp::DelIdx(*k) }));
+            probes(&mut ops, &ks);
+            out.push(hist(coll, 8, ops));
+        }
+    }
+    out
+}
